@@ -69,7 +69,7 @@ def execute(prop, desc):
             if not v and desc.get("registry") and rec.sim.hung is None:
                 # repair clause: the next run from the surviving stores is correct
                 follow = dict(op="run", cfg=dict(desc["ops"][0]["cfg"], progress="rec"))
-                rec2 = machine.apply_op(hist, follow, 1)
+                rec2 = machine.apply_op(hist, follow, 1 + k)
                 v = R.o_fromscratch(rec2, hist.world, hist) + O.o_term(rec2, hist.world, hist)
                 if rec2.exc is not None and not (desc["ops"][0].get("faults") or {}).get("calls"):
                     v.append(O.V("followup-failed", f"the run after the interrupted run failed: {rec2.exc!r}"))
